@@ -86,4 +86,21 @@ def fetchKeyvalFromGpgV (G : GpgBackend) (sslib : Bool) (fpr : PyVal) : Res PStr
   | .bytes _ | .bytearray _ => .error .arg     -- bytes.replace(" ", "") : TypeError
   | _ => .error .attribute
 
+-- CLI front ends (`cli.py:180-191, 211-214`) ---------------------------------------------------------------
+
+/-- `"".join(s.split()).lower()` (`cli.py:186, 212`): all whitespace removed, lower-cased (on the hex alphabet) -/
+def stripAllSpaceLower (s : PStr) : PStr := asciiLower (s.filter fun c => !isPySpace c)
+
+/-- `cli_gpg_sign` (180-191): outcome and the file afterwards -/
+def cliGpgSign (G : GpgBackend) (sslib : Bool) (file : Option Bytes) (fprArg : PStr) : CliOutcome × Option Bytes :=
+  match signRootMdFileViaGpg G sslib file (.str (stripAllSpaceLower fprArg)) with
+  | .ok b => (.returned none, some b)
+  | .error e => (.raised e, file)
+
+/-- `cli_gpg_key_lookup` (211-214): outcome and the key value printed -/
+def cliGpgKeyLookup (G : GpgBackend) (sslib : Bool) (fprArg : PStr) : CliOutcome × Option PStr :=
+  match fetchKeyvalFromGpg G sslib (.str (stripAllSpaceLower fprArg)) with
+  | .ok q => (.returned none, some q)
+  | .error e => (.raised e, none)
+
 end CCT
